@@ -190,7 +190,7 @@ def _options(E, o, **extra):
     kw = {}
     for k in ("collect_errors", "max_errors", "invalid_items", "invalid_keys", "invalid_values", "no_data_loss",
               "no_explicit_cast", "ignore_constraints", "ignore_alias_conflicts", "ignore_required",
-              "data_first_search", "cast_keyword_str", "max_params", "min_params"):
+              "data_first_search", "cast_keyword_str", "max_params", "min_params", "override"):
         if o.get(k) is not None:
             kw[k] = o[k]
     a = o.get("addition")
@@ -370,48 +370,87 @@ def _disc_types(E):
     return E["disc"]
 
 
-def _impl_schema(case):
-    E = _set_script(case)
-    from utype import Schema
+def _mk_class(E, name, fields, opts_json, kind, hook_k, addition_t=None, field_types=None):
+    """a data class of the given kind (Schema / DataClass / @utype.dataclass) whose post-init hook is scripted"""
+    import utype
+    from utype import DataClass, Schema
     comps = E["comps"]
     st = E["state"]
+    flags = st["flags"]
     ann, attrs = {}, {}
-    for f in case["fields"]:
-        name = _key_name(f["id"])
-        if f.get("disc_real"):
-            ann[name] = _disc_types(E)
+    for f in fields:
+        fname = _key_name(f["id"])
+        if field_types and f["id"] in field_types:
+            ann[fname] = field_types[f["id"]]
+        elif f.get("disc_real"):
+            ann[fname] = _disc_types(E)
         elif f.get("t") is not None:
-            ann[name] = comps[f["t"]]
+            ann[fname] = comps[f["t"]]
         else:
             from typing import Any
-            ann[name] = Any
-        attrs[name] = _field(E, f)
+            ann[fname] = Any
+        attrs[fname] = _field(E, f)
     extra = {}
-    if case.get("addition_t") is not None:
-        extra["addition"] = comps[case["addition_t"]]
+    if addition_t is not None:
+        extra["addition"] = comps[addition_t]
+    options = _options(E, opts_json, **extra)
     attrs["__annotations__"] = ann
-    attrs["__options__"] = _options(E, case.get("opts", {}), **extra)
-    flags = st["flags"]
-
-    def __validate__(self):
-        flags["hook_entered"] = True
-        E["run_act"](st["script"].get((7, 2, 0)), None, "hook")
-    attrs["__validate__"] = __validate__
     attrs["__module__"] = __name__
-    S = type("S", (Schema,), attrs)
+
+    def hook(self, *a):
+        flags["hooks"] = flags.get("hooks", 0) + 1
+        flags.setdefault("hooked", []).append(name)
+        E["run_act"](st["script"].get((7, 2, hook_k)), None, "hook")
+    if kind == "decorated":
+        return utype.dataclass(type(name, (), attrs), options=options, post_init=hook)
+    attrs["__options__"] = options
+    attrs["__validate__"] = hook
+    return type(name, ({"Schema": Schema, "DataClass": DataClass}[kind],), attrs)
+
+
+def _inst_items(inst):
+    if isinstance(inst, dict):
+        return list(dict(inst).items())
+    return [(k, v) for k, v in vars(inst).items() if not k.startswith("__")]
+
+
+def _impl_schema(case):
+    E = _set_script(case)
+    flags = E["state"]["flags"]
+    kind = case.get("cls_kind", "Schema")
+    S = _mk_class(E, "S", case["fields"], case.get("opts", {}), kind, 1 if case.get("entry") == "nested" else 0,
+                  addition_t=case.get("addition_t"))
+    top = "S"
     try:
-        if case.get("entry") == "from":
-            inst = S.__from__(_mk_schema_input(E, case["input_real"]))
+        entry = case.get("entry")
+        if entry == "from":
+            data = _mk_schema_input(E, case["input_real"])
+            via = case.get("via", "from")
+            ro = _options(E, case["ropts"]) if case.get("ropts") is not None else None
+            if via == "init_dataclass":
+                from utype.parser.cls import init_dataclass
+                inst = init_dataclass(S, data, options=ro)
+            elif via == "type_transform":
+                from utype import type_transform
+                inst = type_transform(data, S, options=ro)
+            else:
+                inst = S.__from__(data, options=ro)
+        elif entry == "nested":
+            top = "Out"
+            out_f = {"id": 90, "aliases": [90], "t": None, "required": True, "default": None, "on_error": None}
+            Out = _mk_class(E, "Out", [out_f], case["outer"]["opts"], case["outer"]["cls_kind"], 0, field_types={90: S})
+            inst = Out(**{_key_name(90): _mk_schema_input(E, case["input_real"])})
         else:
             inst = S(**{_key_name(k): _mk_input(E, v) for k, v in case["kwargs"]})
         kv = []
-        for k, v in dict(inst).items():
+        for k, v in _inst_items(inst):
             kid = int(k[1:]) if k[:1] == "k" and k[1:].isdigit() else int(k) if k.isdigit() else -1
             kv.append([kid, _canon(E, v)])
         out = {"out": "ok", "value": sorted(kv, key=lambda p: p[0])}
     except Exception as e:
         out = _exc_out(e)
-    out["hook"] = bool(flags.get("hook_entered"))
+    out["hooks"] = flags.get("hooks", 0)
+    out["hook"] = top in flags.get("hooked", [])
     out["hook_raised"] = bool(flags.get("hook"))
     return out
 
@@ -775,6 +814,41 @@ def _impl_hostile(case):
             entry = tgt.get("entry", "pos")
             if entry == "kw":
                 call = lambda: S(**{k: _hv(v) for k, v in case["kwargs"].items()})   # noqa
+            elif entry in ("from_opts", "init_dataclass", "type_transform", "outer"):
+                # run-time options: the same call is made first without collect_errors/max_errors (ground truth)
+                from utype import Options, Schema, type_transform
+                from utype.parser.cls import init_dataclass
+                ro = dict(case.get("ropts") or {})
+                strict = {k: v for k, v in ro.items() if k not in ("collect_errors", "max_errors")}
+
+                def build(od):
+                    opts = Options(**od)
+                    if entry == "from_opts" and hasattr(S, "__from__"):
+                        return lambda: S.__from__(_hv(case["value"]), options=opts)
+                    if entry == "type_transform":
+                        return lambda: type_transform(_hv(case["value"]), S, options=opts)
+                    if entry == "outer":
+                        n = state["flags"].get("outs", 0)
+                        state["flags"]["outs"] = n + 1
+                        fl = state["flags"]
+
+                        def __validate__(self):
+                            fl.setdefault("validated", []).append("HOut")
+                        Out = type(f"HOut{n}", (Schema,), {"__annotations__": {"inner": S}, "__options__": opts,
+                                                           "__module__": __name__, "__validate__": __validate__})
+                        return lambda: Out(inner=_hv(case["value"]))
+                    return lambda: init_dataclass(S, _hv(case["value"]), options=opts)
+                from utype.utils.exceptions import ParseError
+                try:
+                    build(strict)()
+                    strict_failed = False
+                except ParseError:
+                    strict_failed = True
+                except Exception:
+                    strict_failed = None        # reported by the main call below
+                state["flags"].pop("validated", None)
+                state["flags"]["strict_failed"] = strict_failed
+                call = build(ro)
             elif entry == "from" and hasattr(S, "__from__"):
                 call = lambda: S.__from__(_hv(case["value"]))           # noqa
             else:
@@ -807,7 +881,10 @@ def _impl_hostile(case):
     out["body"] = bool(state["flags"].get("body"))
     # only the instance the caller asked for counts (a nested instance may be complete before a sibling fails)
     top = tgt["schema"].get("name", "HS") if "schema" in tgt else None
+    if "schema" in tgt and tgt.get("entry") == "outer":
+        top = "HOut"
     out["validated"] = top is not None and top in state["flags"].get("validated", [])
+    out["strict_failed"] = bool(state["flags"].get("strict_failed"))
     return out
 
 
@@ -930,9 +1007,9 @@ def gen_rule(rng):
         t = rng.randrange(1, NCOMP)
         xs = [rng.choice(U) for _ in range(rng.randint(0, 5))]
         case.update(origin="list", args=None, input={"seq": 0, "xs": xs}, contains=t,
-                    min_contains=rng.choice([None, 1, 2]), max_contains=rng.choice([None, 1, 2, 3]),
+                    min_contains=rng.choice([None, 0, 1, 2]), max_contains=rng.choice([None, 0, 1, 2, 3]),
                     script=_script_for(rng, [0], [t], set(xs), p_id=0.45))
-        if case["min_contains"] and case["max_contains"] and case["max_contains"] < case["min_contains"]:
+        if case["min_contains"] is not None and case["max_contains"] is not None and case["max_contains"] < case["min_contains"]:
             case["max_contains"] = None
     return case
 
@@ -1027,16 +1104,53 @@ def gen_schema(rng):
         sc[-1][3]["perr"] = sc[-1][3]["raise"] < 100
     case["script"] = sc
     case["kwargs"] = kwargs
-    if rng.random() < 0.25 and not conflict:
+    case["cls_kind"] = rng.choice(["Schema", "DataClass", "DataClass", "decorated"])
+    r_entry = rng.random()
+    if r_entry < 0.22 and not conflict:
+        # the class as a field of an outer class: the outer options reach it when they say override
+        case["entry"] = "nested"
+        case["novalue"] = True
+        oo = _base_opts(rng)
+        oo["override"] = rng.random() < 0.6
+        if rng.random() < 0.3:
+            oo["invalid_values"] = rng.choice(POLICIES)
+        if rng.random() < 0.2:
+            oo["ignore_required"] = True
+        if rng.random() < 0.6:
+            o.pop("collect_errors", None)
+            o.pop("max_errors", None)
+        if rng.random() < 0.15:
+            o["override"] = True
+        case["outer"] = {"opts": oo, "cls_kind": rng.choice(["Schema", "DataClass"])}
+        case["input_real"] = {"skv": kwargs}
+        case["input"] = {"map": [[k, v] for k, v in kwargs]}
+    elif r_entry < 0.55 and not conflict:
         case["entry"] = "from"
-        form = rng.choice(["skv", "skv", "ikv", "raw", "pairs"])
+        case["via"] = rng.choice(["init_dataclass", "type_transform"] if case["cls_kind"] == "decorated"
+                                 else ["from", "from", "init_dataclass", "type_transform"])
+        if rng.random() < 0.65:
+            # options for this call only: typically collect_errors that the class does not declare
+            ro = {"collect_errors": rng.random() < 0.85}
+            if ro["collect_errors"] and rng.random() < 0.35:
+                ro["max_errors"] = rng.choice([1, 2, 3])
+            if rng.random() < (0.7 if case["via"] == "type_transform" else 0.25):
+                ro["override"] = True
+            if rng.random() < 0.2:
+                ro["invalid_values"] = rng.choice(POLICIES)
+            case["ropts"] = ro
+            if rng.random() < 0.7:
+                o.pop("collect_errors", None)
+                o.pop("max_errors", None)
+        else:
+            case["ropts"] = None
+        # (transform_dataclass unwraps a list/tuple input to its first item: not modelled, so no pair lists there)
+        form = rng.choice(["skv", "skv", "skv", "ikv", "raw"] + (["pairs"] if case["via"] != "type_transform" else []))
         if form == "skv":
             case["input_real"] = {"skv": kwargs}
             case["input"] = {"map": [[k, v] for k, v in kwargs]}
         elif form == "ikv":
             kv = [[50 + i, rng.choice(U)] for i in range(rng.randint(1, 2))]
             o["cast_keyword_str"] = rng.random() < 0.5
-            case["str_keys"] = bool(o["cast_keyword_str"])
             case["input_real"] = {"ikv": kv}
             case["input"] = {"map": kv}
             case["script"] += _script_for(rng, [0], types, {v for _, v in kv}, p_id=0.6)
@@ -1051,10 +1165,62 @@ def gen_schema(rng):
             case["script"].append([5, 0, 9999, {"ok": {"map": [[k, v] for k, v in kwargs]}}])
         if rng.random() < 0.3:
             o["no_explicit_cast"] = True
-            if case.get("int_keys") and o.get("cast_keyword_str"):
+        run = running_opts(case)          # cast_keyword_str / no_explicit_cast act through the RUNNING options
+        if case.get("int_keys"):
+            case["str_keys"] = bool(run.get("cast_keyword_str"))
+            if run.get("cast_keyword_str") and run.get("no_explicit_cast"):
                 # to_str(<int key>) refuses under no_explicit_cast: the cast_keyword_str loop raises TypeError
                 case["script"].append([5, 1, 9999, {"raise": 100, "perr": False}])
     return case
+
+
+def running_opts(case):
+    """Options.make_context (options.py:251-258) on descriptors: which option record the parse runs with"""
+    d = case.get("opts", {})
+    given, ctx = None, None
+    if case.get("entry") == "from":
+        if case.get("via") == "type_transform":
+            ctx = case.get("ropts") or {}
+        else:
+            given = case.get("ropts")
+    elif case.get("entry") == "nested":
+        ctx = case["outer"]["opts"]
+    run = given if given is not None else d
+    if ctx is not None and not run.get("override") and ctx.get("override"):
+        run = ctx
+    return run
+
+
+def must_fail(case):
+    """a sufficient condition, read off the declaration and the script alone, for "this input does not parse":
+    a typed field under the throw policy is given (under exactly one of its keys) a token its type refuses, or a
+    required field is not given at all.  Used as ground truth for "no instance comes out of invalid data"."""
+    if case["kind"] != "schema" or case.get("form") or any(f.get("disc") for f in case["fields"]):
+        return None
+    if case.get("entry") == "from" and ("skv" not in case.get("input_real", {})):
+        return None
+    run = running_opts(case)
+    if run.get("ignore_required") or run.get("max_params") or run.get("min_params"):
+        return None
+    if case.get("entry") == "nested" and (case["outer"]["opts"].get("invalid_values") or "throw") != "throw":
+        return None     # the outer field's own policy may legitimately preserve / exclude the failing inner value
+    given = {}
+    for k, v in case["kwargs"]:
+        given[k] = v["tokobj"] if isinstance(v, dict) else v
+    script = {(e[0], e[1], e[2]): e[3] for e in reversed(case.get("script", []))}
+    for f in case["fields"]:
+        keys = [a for a in f["aliases"] if a in given]
+        if not keys:
+            if f["required"] and f.get("default") is None:
+                return f"required field k{f['id']} is not given"
+            continue
+        if len(keys) != 1 or f.get("t") is None:
+            continue
+        pol = f.get("on_error") or run.get("invalid_values") or "throw"
+        a = script.get((0, f["t"], given[keys[0]]))
+        if pol == "throw" and isinstance(a, dict) and "raise" in a:
+            return f"field k{f['id']} is given a value its type refuses"
+    return None
 
 
 def gen_disc(rng, o):
@@ -1388,8 +1554,19 @@ def hostile_cases(rng, n, full=False):
             sn = rng.choice(list(H_SCHEMAS))
             sd = H_SCHEMAS[sn]
             names = [f["name"] for f in sd["fields"]]
-            form = rng.choice(["pos", "from", "kw1", "kw2", "kwalias", "nested"])
-            if form in ("pos", "from"):
+            form = rng.choice(["pos", "from", "kw1", "kw2", "kwalias", "nested", "ropts", "ropts"])
+            if form == "ropts":
+                # collect_errors (max_errors, override) supplied at run time, on every kind of class and entry point
+                entry = rng.choice(["from_opts", "init_dataclass", "type_transform", "outer"])
+                ro = {"collect_errors": True}
+                if rng.random() < 0.3:
+                    ro["max_errors"] = rng.choice([1, 2])
+                if entry in ("type_transform", "outer") or rng.random() < 0.2:
+                    ro["override"] = True
+                val = v if rng.random() < 0.25 else _V("dict", kv=[[rng.choice(names), v]] + ([["zz", v]] if rng.random() < 0.3 else []))
+                out.append({"kind": "hostile", "t": sn + "/" + entry, "vn": vn, "target": {"schema": sd, "entry": entry},
+                            "value": val, "ropts": ro})
+            elif form in ("pos", "from"):
                 val = v if rng.random() < 0.5 else _V("dict", kv=[[rng.choice(names), v]] + ([["zz", v]] if rng.random() < 0.3 else []))
                 out.append({"kind": "hostile", "t": sn + "/" + form, "vn": vn, "target": {"schema": sd, "entry": form}, "value": val})
             elif form == "nested":
@@ -1419,6 +1596,22 @@ def hostile_cases(rng, n, full=False):
                 c["kwargs"] = {"zz": v}
             out.append(c)
     return out
+
+
+def _has_self_ref(j):
+    if isinstance(j, dict):
+        return "self" in j or any(_has_self_ref(x) for x in j.values())
+    if isinstance(j, list):
+        return any(_has_self_ref(x) for x in j)
+    return False
+
+
+def _deep_dict(v):
+    if isinstance(v, dict):
+        if v.get("v") == "deep" and v.get("kind") == "dict" and v.get("n", 0) >= 8:
+            return True
+        return any(_deep_dict(x) for x in v.get("xs", [])) or any(_deep_dict(b) for _, b in v.get("kv", []))
+    return False
 
 
 def _huge_exp_value(v):
@@ -1578,8 +1771,15 @@ class C04(Check):
         elif k == "logical":
             line.update(comb=case["comb"], args=case["args"], input=case["input"])
         elif k == "schema":
+            given, ctx = None, None
+            if case["entry"] == "from":
+                if case.get("via") == "type_transform":
+                    ctx = case.get("ropts") or {}
+                else:
+                    given = case.get("ropts")
             line.update(entry=case["entry"], fields=case["fields"], addition_t=case.get("addition_t"),
-                        str_keys=case.get("str_keys", True),
+                        str_keys=case.get("str_keys", True), cls_kind=case.get("cls_kind", "Schema"),
+                        given=given, ctx=ctx, outer=case.get("outer"),
                         kwargs=[[a, _tok_json(b)] for a, b in case.get("kwargs_model", case.get("kwargs", []))],
                         input=_tok_json(case.get("input")))
         elif k == "func":
@@ -1622,8 +1822,8 @@ class C04(Check):
                 return f"collected errors differ: impl {io['errors']} model {mo['errors']}"
         if case["kind"] == "func" and io.get("body") != ("enterBody" in mo.get("trace", [])):
             return f"body entered: impl {io.get('body')} model trace {mo.get('trace')}"
-        if case["kind"] == "schema" and io.get("hook") != ("attrsSet" in mo.get("trace", [])):
-            return f"post-init entered: impl {io.get('hook')} model trace {mo.get('trace')}"
+        if case["kind"] == "schema" and io.get("hooks") != mo.get("trace", []).count("attrsSet"):
+            return f"instances populated (post-init hooks run): impl {io.get('hooks')} model trace {mo.get('trace')}"
         return None
 
     def _compare_ts(self, case, io, mo):
@@ -1666,6 +1866,12 @@ class C04(Check):
         if io.get("out") == "decl-error":
             return None
         out = io.get("out")
+        if out == "ok" and case["kind"] == "schema":
+            why = must_fail(case)
+            if why:
+                return f"an instance was created from input that does not parse ({why})"
+        if out == "ok" and case["kind"] == "hostile" and io.get("strict_failed"):
+            return "an instance was created under run-time collect_errors from input that raises ParseError without it"
         if out == "raise" and not io["info"]["perr"]:
             name = io["info"].get("name") or OTHER_NAMES.get(io["info"]["cls"], io["info"]["cls"])
             if io.get("hook_raised") or io.get("body_raised"):
@@ -1689,7 +1895,7 @@ class C04(Check):
     def _proviso(case):
         """top level of a data class: non-str keys (without cast_keyword_str) or a mapping whose protocol raises"""
         tgt = case["target"]
-        if "schema" not in tgt or tgt.get("entry") == "kw":
+        if "schema" not in tgt or tgt.get("entry") in ("kw", "outer"):
             return False
         if tgt["schema"].get("options", {}).get("cast_keyword_str"):
             v = case.get("value")
@@ -1708,6 +1914,9 @@ class C04(Check):
             vals = [case.get("value")] + list(case.get("args", [])) + list(case.get("kwargs", {}).values())
             if any(_huge_exp_value(v) for v in vals):
                 return "huge-exponent-int"
+            if (_has_self_ref(case.get("target")) and any(_deep_dict(v) for v in vals)
+                    and (case.get("ropts") or {}).get("collect_errors") and (case.get("ropts") or {}).get("override")):
+                return "union-retries-exponential"
         return None
 
     # ---- search / evidence -----------------------------------------------------------------------
